@@ -20,6 +20,7 @@ const (
 	TagFnTypeParams = "fn-type-params"    // #8: ConvertType drops the parameters of function types
 	TagMatchDiverge = "match-all-diverge" // #14: match without default whose arms all diverge is typed never
 	TagFnList       = "fn-list"           // #48: list literal with two or more function values
+	TagFnAssign     = "fn-assign"         // assignment of a function value to a function-typed variable/field/element is rejected
 	TagLoopNever    = "loop-never"        // loop termination flag is never cleared after a throw outside of a loop
 )
 
